@@ -151,7 +151,7 @@ def k_shortcut(ctx):
 
 
 # ---- K3: templates with temporal sub directories (neighbourhood = t +- one directory period) ----------
-@harness("C16.tree", cases=lambda tier: ["y/m/d", "y/doy", "y", "name/y/doy", "y/lit/m"] + (["ym/d", "y2/m/d/h"] if tier == "thorough" else []),
+@harness("C16.tree", cases=lambda tier: ["y/m/d", "y/doy", "y", "name/y/doy", "y/lit/m", "y/m/d/name"] + (["ym/d", "y2/m/d/h", "y/name/doy", "y/m/lit"] if tier == "thorough" else []),
          expect=lambda c: ["returns-a-candidate-file", "covering-file-whenever-one-exists", "nearest-otherwise"])
 def k_tree(ctx):
     layout = ctx.case
@@ -203,9 +203,9 @@ PLAN = {
 BOUNDS = {"quick": {"flat template": "n <= 2 files with arbitrary symbolic coverages, <= 1 symbolic excluded period, every subset excluded by name, "
                     "no / white / black filter; every timestamp in the calendar window " + WIN.describe(),
                     "short cut": "timestamp equal to the time in an existing file's name; that file excluded by name / period / filter or not",
-                    "sub directories": "4 directory layouts x 8 concrete files at year / month / leap-day boundaries, every timestamp "
+                    "sub directories": "6 directory layouts (incl. a literal level and a user-placeholder level below the day level) x 8 concrete files at year / month / leap-day boundaries, every timestamp "
                                        "(microsecond) in 2019-12-20 .. 2020-03-20"},
-          "thorough": {"flat template": "n <= 3", "sub directories": "7 layouts"}}
+          "thorough": {"flat template": "n <= 3", "sub directories": "10 layouts"}}
 OUTSIDE = ["ties may resolve either way (the statement asks for *a* nearest file)", "timestamps outside the calendar window",
            "the handlers' own I/O behind fileset[t] (a token handler stands in; see C11)"]
 STUBS = ["ModelFS / ModelFSSpec", "symbolic datetimes", "np proxy (abs / min / argmin over symbolic time differences)"]
